@@ -243,6 +243,12 @@ package tree
 //@ fn Tree.Remove
 //@   requires treeOK(tree) && allSafe() && sepOK() && lockFree(tree)
 //@   ensures [C03,C05] safe: allSafe() && sepOK()
+//@   cut tree.node.buildMethods 1 [C08,C05] auto-entries-complete: len(callresult("tree.Tree.Find", 1, 0).handlers) > 0 ==>
+//@        in("", callresult("tree.Tree.Find", 1, 0).handlers) && in("OPTIONS", callresult("tree.Tree.Find", 1, 0).handlers)
+//@   cut tree.node.buildMethods 1 [C08] auto-entries-last-to-go: len(callresult("tree.Tree.Find", 1, 0).handlers) == 0 ||
+//@        ((in("OPTIONS", callresult("tree.Tree.Find", 1, 0).handlers) <==> old(in("OPTIONS", callresult("tree.Tree.Find", 1, 0).handlers))) &&
+//@         (in("", callresult("tree.Tree.Find", 1, 0).handlers) <==> old(in("", callresult("tree.Tree.Find", 1, 0).handlers))))
+//@   cut tree.node.buildMethods 1 [C08] head-follows-get: in("HEAD", callresult("tree.Tree.Find", 1, 0).handlers) <==> in("GET", callresult("tree.Tree.Find", 1, 0).handlers)
 //@   inv 1 [C08] bound: -1 <= rangeindex && rangeindex < len(methods) && callresult("tree.Tree.Find", 1, 0).handlers == old(callresult("tree.Tree.Find", 1, 0).handlers)
 //@   inv 1 [C08] head-follows-get: in("HEAD", callresult("tree.Tree.Find", 1, 0).handlers) <==> in("GET", callresult("tree.Tree.Find", 1, 0).handlers)
 //@   inv 1 [C08] automatic-kept: (in("OPTIONS", callresult("tree.Tree.Find", 1, 0).handlers) <==> old(in("OPTIONS", callresult("tree.Tree.Find", 1, 0).handlers))) &&
